@@ -1,7 +1,12 @@
 package props
 
 import (
+	"bufio"
+	"compress/gzip"
+	"errors"
 	"fmt"
+	"io"
+	"io/fs"
 	"strings"
 	"sync"
 
@@ -24,7 +29,41 @@ type c07Read struct {
 	Forever  bool   `json:"error_forever"`
 	WithData bool   `json:"error_with_last_bytes"`
 	OneByte  bool   `json:"one_byte_reads"`
+	Error    string `json:"error_identity,omitempty"` // see faultIdentities; empty: a plain errors.New value
 }
+
+// isEOFish is an error type whose Is method claims kinship with io.EOF without being io.EOF.
+type isEOFish struct{}
+
+func (isEOFish) Error() string        { return "connection reset while reading the last block" }
+func (isEOFish) Is(target error) bool { return target == io.EOF }
+
+type timeoutErr struct{}
+
+func (timeoutErr) Error() string   { return "i/o timeout" }
+func (timeoutErr) Timeout() bool   { return true }
+func (timeoutErr) Temporary() bool { return true }
+
+// faultIdentities: which error VALUE the failing reader returns. None of them is io.EOF (the io
+// package: "Read must return EOF itself, not an error wrapping EOF, because callers will test for
+// EOF using =="), so each is a non-EOF failure in the sense of the property.
+var faultIdentities = map[string]error{
+	"io.ErrUnexpectedEOF":   io.ErrUnexpectedEOF,
+	"wraps-io.EOF":          fmt.Errorf("object store: range read of chunk 2 failed: %w", io.EOF),
+	"path-error-around-EOF": &fs.PathError{Op: "read", Path: "/data/x", Err: io.EOF},
+	"Is(io.EOF)-true":       isEOFish{},
+	"text-is-EOF":           errors.New("EOF"),
+	"timeout-temporary":     timeoutErr{},
+	"io.ErrNoProgress":      io.ErrNoProgress,
+	"io.ErrClosedPipe":      io.ErrClosedPipe,
+	"bufio.ErrTooLong":      bufio.ErrTooLong,
+	"gzip.ErrChecksum":      gzip.ErrChecksum,
+}
+
+// bufio.ErrBufferFull is deliberately absent: bufio.Reader itself reads that value, coming from the
+// underlying reader, as "my buffer is full, carry on" (ReadString then loops forever inside the standard
+// library). No io.Reader returns it from Read; demanding that the library survive it would test bufio.
+var faultIdentityNames = []string{"io.ErrUnexpectedEOF", "wraps-io.EOF", "path-error-around-EOF", "Is(io.EOF)-true", "text-is-EOF", "timeout-temporary", "io.ErrNoProgress", "io.ErrClosedPipe", "bufio.ErrTooLong", "gzip.ErrChecksum"}
 
 type c07Write struct {
 	Format string `json:"format"`
@@ -70,10 +109,10 @@ func checkC07Read(c c07Read) core.Outcome {
 			return core.Outcome{Skip: true} // not a well-formed input
 		}
 	}
-	rd := &envio.FaultReader{Data: data, At: c.At, Forever: c.Forever, WithData: c.WithData, OneByte: c.OneByte}
+	rd := &envio.FaultReader{Data: data, At: c.At, Forever: c.Forever, WithData: c.WithData, OneByte: c.OneByte, Err: faultIdentities[c.Error]}
 	horizon := len(ref) + 16
 	items, p, over := f.Read(rd, horizon)
-	desc := fmt.Sprintf("%s, %d-byte input %s, reader fails after %d bytes (%s, error %s, %s reads)", c.Format, len(data), c.Corpus, c.At,
+	desc := fmt.Sprintf("%s, %d-byte input %s, reader fails after %d bytes%s (%s, error %s, %s reads)", c.Format, len(data), c.Corpus, c.At, map[bool]string{true: "", false: " with the error value " + c.Error}[c.Error == ""],
 		map[bool]string{true: "error forever", false: "error once then EOF"}[c.Forever],
 		map[bool]string{true: "together with the last bytes", false: "alone"}[c.WithData], map[bool]string{true: "1-byte", false: "maximal"}[c.OneByte])
 	if p == envio.ErrPolledTooOften || over {
@@ -163,7 +202,29 @@ func runC07(r *core.Run) {
 										if (size == "large" || size == "longline") && !r.Thorough() && (ob || forever != wd) {
 											continue // quick: two of the eight plans per offset on the 9 KiB file
 										}
-										if !emit(c07Read{f.Name, fmt.Sprint(size, "/", i), at, forever, wd, ob}) {
+										if !emit(c07Read{f.Name, fmt.Sprint(size, "/", i), at, forever, wd, ob, ""}) {
+											return
+										}
+									}
+								}
+							}
+						}
+					}
+				}
+			}
+		}, checkC07Read)
+
+	r.Bound("read-fault-identities", fmt.Sprintf("per format: every well-formed small and medium corpus file x every fault offset x {once, forever} x {alone, with the last bytes} x %d error values that are not io.EOF (errors wrapping io.EOF, an Is(io.EOF) type, the text \"EOF\", io.ErrUnexpectedEOF, timeouts, bufio/gzip sentinels)", len(faultIdentityNames)))
+	core.Clause(r, "read-fault-identities", core.Opts{Rule: "the same oracle as read-faults, over WHICH error value the reader fails with: anything that is not io.EOF itself is a failure; non-trivial = fault strictly inside the data and at least one record before it"},
+		func(emit func(c07Read) bool) {
+			for _, f := range formats {
+				for _, size := range []string{"small", "medium"} {
+					for i, d := range corpus(f.Name, size) {
+						for at := 0; at <= len(d); at++ {
+							for _, forever := range []bool{false, true} {
+								for _, wd := range []bool{false, true} {
+									for _, id := range faultIdentityNames {
+										if !emit(c07Read{f.Name, fmt.Sprint(size, "/", i), at, forever, wd, false, id}) {
 											return
 										}
 									}
